@@ -729,7 +729,9 @@ JEditState(e, st) ==
   LET old == st[e.s].st
       fact == <<e.fact[1], e.fact[2]>>
       want == [facts |-> (IF e.how = "add" THEN old.facts \cup {fact} ELSE IF e.how = "remove" THEN old.facts \ {fact} ELSE old.facts),
-               fl |-> (IF e.how = "set" THEN [g \in DOMAIN old.fl |-> IF g = <<e.f, e.a>> THEN <<e.v[1], e.v[2]>> ELSE old.fl[g]] ELSE old.fl)]
+               fl |-> (IF e.how = "set" THEN [g \in DOMAIN old.fl |-> IF g = <<e.f, e.a>> THEN <<e.v[1], e.v[2]>> ELSE old.fl[g]]
+                       ELSE IF e.how = "unset" THEN [g \in DOMAIN old.fl \ {<<e.f, e.a>>} |-> old.fl[g]]
+                       ELSE old.fl)]
       got == StOfJson(e.out.st)
       s2 == Put(st, e.s, [kind |-> "state", st |-> got, hdr |-> st[e.s].hdr])
   IN  IF ~Has(e.out, "st") THEN Fail("EditState:exception", st)
